@@ -401,6 +401,8 @@ PROPS = {
             "BPT.C.insertLeaf_refs", "BPT.C.insertBranch_refs", "BPT.C.insertRec_refs", "BPT.C.deleteRec_refs", "BPT.C.setitem_refs",
             "BPT.C.new_spec",
             "BPT.Props.C13.failed_call_keeps_nothing", "BPT.C.raisingCall_state", "BPT.C.raisingCall_refs", "BPT.C.searchCompares_of_root_keys",
+            "BPT.Props.C13.gc_traverse_exact", "BPT.Props.C13.gc_traverse_exact_along_histories", "BPT.Props.C13.gc_traverse_needs_shape",
+            "BPT.C.gcVisit_eq_slotsOf",
         ],
         "ties": C_TIES,
         "suites": [
